@@ -919,26 +919,43 @@ static int certattr_matchregex(GENERAL_NAME *gn, struct certattrmatch *match) {
     return _general_name_regex_match((char *)ASN1_STRING_get0_data(gn->d.ia5), ASN1_STRING_length(gn->d.ia5), match);
 }
 
+/* the value of an otherName if it is of a string type, else NULL */
+static ASN1_STRING *othernamestring(GENERAL_NAME *gn) {
+    switch (ASN1_TYPE_get(gn->d.otherName->value)) {
+    case V_ASN1_UTF8STRING:
+    case V_ASN1_IA5STRING:
+    case V_ASN1_PRINTABLESTRING:
+    case V_ASN1_OCTET_STRING:
+        return gn->d.otherName->value->value.asn1_string;
+    }
+    return NULL;
+}
+
 static int certattr_matchothername(GENERAL_NAME *gn, struct certattrmatch *match) {
+    ASN1_STRING *value;
+
     if (OBJ_cmp(gn->d.otherName->type_id, match->oid) != 0)
         return 0;
-    return _general_name_regex_match((char *)ASN1_STRING_get0_data(gn->d.otherName->value->value.octet_string),
-                                     ASN1_STRING_length(gn->d.otherName->value->value.octet_string),
-                                     match);
+    if (!(value = othernamestring(gn)))
+        return 0;
+    return _general_name_regex_match((char *)ASN1_STRING_get0_data(value), ASN1_STRING_length(value), match);
 }
 
 static int certattr_matchwildcard(GENERAL_NAME *gn, struct certattrmatch *match) {
     char *v = NULL;
     char *wildcardtoken = "*.";
     char *suffix = NULL;
+    ASN1_STRING *value;
     size_t l;
     int ret = 0;
 
     if (OBJ_cmp(gn->d.otherName->type_id, match->oid) != 0)
         return 0;
+    if (!(value = othernamestring(gn)))
+        return 0;
 
-    l = ASN1_STRING_length(gn->d.otherName->value->value.octet_string);
-    if (!(v = stringcopy(((char *)ASN1_STRING_get0_data(gn->d.otherName->value->value.octet_string)), l)))
+    l = ASN1_STRING_length(value);
+    if (!(v = stringcopy(((char *)ASN1_STRING_get0_data(value)), l)))
         return 0;
 
     if (l > 2 &&
